@@ -7,6 +7,7 @@ Line-protocol front end of the C12 model.
 ```
 C12 eval  sep|pts|polar <tol> <xs> <ys> <shape…> →  ok <values> <near flags> <path==pointwise 0/1>
 C12 super <nx> <ny> <tol> <xs> <ys> <shape…>     →  ok <means> <near flags>  |  err index  |  err zerodiv
+C12 superstat mean|sum|min|max <nx> <ny> <tol> <xs> <ys> <shape…>   →  as `super`, for the given statistic
 C12 regsub sep <tol> <xs> <ys> <even> <r> <a> <dirs> <cx> <cy>
         →  ok some <y0> <x0> <nr> <nc> <f_sub ravelled> <near flags> <edge 0/1>  |  ok none <edge 0/1>
 C12 regsub pts <tol> <xs> <ys> <even> <r> <a> <dirs> <cx> <cy>
@@ -143,7 +144,12 @@ def evalResp (st : St) (mode : String) (tol : Rat) (xs ys : List Rat) (s : Shape
       let qs : List PPt := (xs.zip dirs).map fun q => (q.1, q.2.1, q.2.2)
       let pts := qs.map toCart
       let vals := evalPolar s qs
-      (st, s!"ok {showRatList vals} {showList showBool (pts.map (near tol s))} {showBool (vals == pts.map (val s))}")
+      -- `evalPolar = map val ∘ toCart` is a theorem only for exact direction cosines (`PolarPt`: c² + s² = 1); the
+      -- floats cos θ, sin θ are not, so the self-check is demanded away from the decision boundaries only
+      let nearF := pts.map (near tol s)
+      let self := vals.length == pts.length &&
+        (vals.zip (pts.zip nearF)).all fun (v, p, n) => n || v == val s p
+      (st, s!"ok {showRatList vals} {showList showBool nearF} {showBool self}")
     | none => (st, "bad-op")
   else (st, "bad-op")
 
@@ -238,6 +244,21 @@ def step (st : St) : List String → St × String
       | _, .error .zeroDiv => (st, "err zerodiv")
       | _, _ => (st, "err index")
     | _, _, _, _, _, _ => (st, "bad-op")
+  -- the statistics 'mean' | 'sum' | 'min' | 'max' of evaluate_supersampled on a separated grid
+  | "superstat" :: stat :: nx :: ny :: tol :: xs :: ys :: shape =>
+    let stat? : Option Stat :=
+      if stat == "mean" then some .mean else if stat == "sum" then some .sum
+      else if stat == "min" then some .min else if stat == "max" then some .max else none
+    match stat?, parseNat? nx, parseNat? ny, parseRat? tol, parseRatList? xs, parseRatList? ys, parseWhole? shape with
+    | some stat, some nx, some ny, some tol, some xs, some ys, some s =>
+      match ditherGrids nx ny xs ys, supersampledStat stat s nx ny xs ys with
+      | some gs, .ok vals =>
+        let flags := gs.foldl (fun acc g => List.zipWith (fun a b => a || b) acc ((sepPoints g.1 g.2).map (near tol s)))
+          (List.replicate (xs.length * ys.length) false)
+        (st, s!"ok {showRatList vals} {showList showBool flags}")
+      | _, .error .zeroDiv => (st, "err zerodiv")
+      | _, _ => (st, "err index")
+    | _, _, _, _, _, _, _ => (st, "bad-op")
   | _ => (st, "bad-op")
 
 end HcipyVerif.Driver.C12
